@@ -40,8 +40,8 @@ RHO = ["r25", "r1", "relem"]
 
 CONT_SIMS = {
     # sim: (space dimension, element types, materials)
-    "elastic2d": (2, Z.TYPES_2D, ["iso_ps", "iso_pe", "aniso", "tiso", "ortho", "hetero"]),
-    "elastic3d": (3, Z.TYPES_3D, ["iso", "aniso", "tiso", "ortho", "hetero"]),
+    "elastic2d": (2, Z.TYPES_2D, ["iso_ps", "iso_pe", "aniso", "aniso_voigt", "tiso", "ortho", "hetero"]),
+    "elastic3d": (3, Z.TYPES_3D, ["iso", "aniso", "aniso_voigt", "tiso", "ortho", "hetero"]),
     "thermal1d": (1, Z.TYPES_1D, ["k1", "khet"]),
     "thermal2d": (2, Z.TYPES_2D, ["k1", "khet"]),
     "thermal3d": (3, Z.TYPES_3D, ["k1", "khet"]),
@@ -514,6 +514,11 @@ def build_material(sim, mat, thick, d, Ne):
     if mat == "aniso":
         C = spd_matrix(3 if d == 2 else 6, "C")
         return E.Anisotropic(d, C, useVoigtNotation=False, thickness=th), None
+    if mat == "aniso_voigt":
+        # a fully populated SPD stiffness (every normal/shear coupling non-zero) entered in Voigt notation
+        n = 3 if d == 2 else 6
+        C = spd_matrix(n, "Cv")
+        return E.Anisotropic(d, C, useVoigtNotation=True, thickness=th), None
     if mat == "ortho":
         return E.Orthotropic(d, 3.0, 2.0, 1.0, 0.9, 0.8, 0.7, 0.2, 0.25, 0.3, planeStress=False, thickness=th), None
     if mat == "tiso":
